@@ -20,7 +20,8 @@ EXTENDS SchemaModel, Json, IOUtils
 CONSTANTS
   NRand,        \* random combinations per base schema
   WsCount,      \* how many of the whitespace classes the one-gap-at-a-time sweep uses
-  PreLayouts    \* 1: compact only, 2: compact and one-token-per-line
+  PreLayouts,   \* 1: compact only, 2: compact and one-token-per-line
+  NRandS        \* number of seeded-random base schemas (rendered under the uniform layouts and random combinations only)
 
 Seed == IF "SEED" \in DOMAIN IOEnv /\ IOEnv.SEED # "" THEN atoi(IOEnv.SEED) ELSE 1
 
@@ -188,17 +189,67 @@ SDecorated == Schema("decorated", <<2, 1>>, <<
 OtherText == "struct Thing {}\nconst N = u8(2);\n"
 Dep(n, t) == [name |-> n, text |-> t]
 
+(* seeded-random base schemas from the grammar: 2..5 definitions of random kinds, members, function shapes and
+   types (references may name constants or services or nothing: that only adds non-syntax diagnostics) *)
+RDef(i) == "D" \o ToString(i)
+RType(k, n, salt) ==
+  LET r == Rnd3(Seed, 131 * k + 7, salt)
+      d == Ref(RDef(((r \div 20) % n) + 1))
+      c == r % 20 IN
+  CASE c = 0 -> Lf("u8") [] c = 1 -> Lf("string") [] c = 2 -> Lf("bool") [] c = 3 -> Lf("f64") [] c = 4 -> Lf("unit")
+    [] c = 5 -> Un("option", Lf("string")) [] c = 6 -> Un("vec", d) [] c = 7 -> MapT(Lf("string"), d) [] c = 8 -> d
+    [] c = 9 -> Un("option", Un("box", d)) [] c = 10 -> ResT(d, Lf("u32")) [] c = 11 -> ArrL(d, "3") [] c = 12 -> ArrR(Lf("u8"), d)
+    [] c = 13 -> Ext("alpha", "T") [] c = 14 -> Un("set", Lf("uuid")) [] c = 15 -> Un("sender", d) [] c = 16 -> Un("receiver", Lf("bytes"))
+    [] c = 17 -> Lf("value") [] c = 18 -> MapT(Lf("i16"), Un("vec", Un("option", d))) [] OTHER -> Lf("lifetime")
+RMembers(k, n, salt, isStruct) ==
+  LET m == Rnd3(Seed, k, salt) % 4 IN
+  [j \in 1 .. m |-> IF isStruct THEN Field("f" \o ToString(j), ToString(j), Rnd3(Seed, k + 2, salt + j) % 2 = 0, RType(k, n, salt + j))
+                    ELSE Var("V" \o ToString(j), ToString(j), IF Rnd3(Seed, k + 3, salt + j) % 2 = 0 THEN <<>> ELSE <<RType(k, n, salt + j)>>)]
+RFb(k, salt) == IF Rnd3(Seed, k + 4, salt) % 2 = 0 THEN <<>> ELSE <<"other">>
+RToi(k, n, salt) ==
+  LET c == Rnd3(Seed, k + 5, salt) % 4 IN
+  CASE c = 0 -> <<>>
+    [] c = 1 -> <<TyI(RType(k, n, salt))>>
+    [] c = 2 -> <<IStruct(RMembers(k, n, salt + 50, TRUE), RFb(k, salt + 50))>>
+    [] c = 3 -> <<IEnum(RMembers(k, n, salt + 60, FALSE), RFb(k, salt + 60))>>
+RItem(k, n, salt, j) ==
+  IF Rnd3(Seed, k + 6, salt) % 3 = 0
+  THEN Ev("ev" \o ToString(j), ToString(j), RToi(k, n, salt + 1))
+  ELSE LET args == RToi(k, n, salt + 2)
+           ok == RToi(k, n, salt + 3)
+           err == RToi(k, n, salt + 4) IN
+       Fn("fun" \o ToString(j), ToString(j), args, ok, err, args # <<>> \/ err # <<>> \/ Rnd3(Seed, k + 7, salt) % 2 = 0)
+RConst(k, i) ==
+  LET c == Rnd3(Seed, k + 8, i) % 4 IN
+  CASE c = 0 -> Const("K" \o ToString(i), "u8", "3") [] c = 1 -> Const("K" \o ToString(i), "i64", "-5")
+    [] c = 2 -> Const("K" \o ToString(i), "string", "\"s\"") [] c = 3 -> Const("K" \o ToString(i), "uuid", U2)
+RDefn(k, n, i) ==
+  LET c == Rnd3(Seed, k + 9, i) % 6
+      salt == 200 * i IN
+  CASE c = 0 \/ c = 5 -> Struct(RDef(i), RMembers(k, n, salt, TRUE), RFb(k, salt))
+    [] c = 1 -> Enum(RDef(i), RMembers(k, n, salt, FALSE), RFb(k, salt))
+    [] c = 2 -> Service(RDef(i), IF i % 2 = 0 THEN U1 ELSE U3, ToString(i),
+                        [j \in 1 .. (Rnd3(Seed, k + 10, i) % 5) |-> RItem(k, n, salt + 10 * j, j)],
+                        IF Rnd3(Seed, k + 11, i) % 2 = 0 THEN <<>> ELSE <<"unknown_fn">>,
+                        IF Rnd3(Seed, k + 12, i) % 2 = 0 THEN <<>> ELSE <<"unknown_ev">>, Rnd3(Seed, k + 13, i) % 2 = 0)
+    [] c = 3 -> RConst(k, i)
+    [] c = 4 -> Newtype(RDef(i), RType(k, n, salt))
+RandBase(k) ==
+  LET n == 2 + (Rnd3(Seed, k, 1) % 4)
+      im == Rnd3(Seed, k, 2) % 3 IN
+  Schema("rnd" \o ToString(k), CASE im = 0 -> <<>> [] im = 1 -> <<1>> [] im = 2 -> <<3, 1>>, [i \in 1 .. n |-> RDefn(k, n, i)])
+
 Bases == <<
-  [B |-> SStructs,   deco |-> <<>>, deps |-> <<Dep("other", OtherText)>>],
-  [B |-> SEnums,     deco |-> <<>>, deps |-> <<>>],
-  [B |-> SService,   deco |-> <<>>, deps |-> <<>>],
-  [B |-> SMisc,      deco |-> <<>>, deps |-> <<>>],
-  [B |-> SImports,   deco |-> <<>>, deps |-> <<Dep("alpha", "struct T {}\n"), Dep("gamma", "import alpha;\nstruct G { t @ 1 = alpha::T; }\n")>>],
-  [B |-> SPrelude,   deco |-> SPreludeDeco, deps |-> <<>>],
-  [B |-> SIssues,    deco |-> <<>>, deps |-> <<Dep("alpha", "struct T {}\n")>>],
-  [B |-> SServices2, deco |-> <<>>, deps |-> <<>>],
-  [B |-> SDecorated, deco |-> FullDeco(SDecorated), deps |-> <<Dep("alpha", "struct T {}\n"), Dep("beta", "struct T {}\n")>>]
->>
+  [B |-> SStructs,   deco |-> <<>>, deps |-> <<Dep("other", OtherText)>>, sweep |-> TRUE],
+  [B |-> SEnums,     deco |-> <<>>, deps |-> <<>>, sweep |-> TRUE],
+  [B |-> SService,   deco |-> <<>>, deps |-> <<>>, sweep |-> TRUE],
+  [B |-> SMisc,      deco |-> <<>>, deps |-> <<>>, sweep |-> TRUE],
+  [B |-> SImports,   deco |-> <<>>, deps |-> <<Dep("alpha", "struct T {}\n"), Dep("gamma", "import alpha;\nstruct G { t @ 1 = alpha::T; }\n")>>, sweep |-> TRUE],
+  [B |-> SPrelude,   deco |-> SPreludeDeco, deps |-> <<>>, sweep |-> TRUE],
+  [B |-> SIssues,    deco |-> <<>>, deps |-> <<Dep("alpha", "struct T {}\n")>>, sweep |-> TRUE],
+  [B |-> SServices2, deco |-> <<>>, deps |-> <<>>, sweep |-> TRUE],
+  [B |-> SDecorated, deco |-> FullDeco(SDecorated), deps |-> <<Dep("alpha", "struct T {}\n"), Dep("beta", "struct T {}\n")>>, sweep |-> TRUE]
+>> \o [k \in 1 .. NRandS |-> [B |-> RandBase(k), deco |-> <<>>, deps |-> <<Dep("alpha", "struct T {}\n")>>, sweep |-> FALSE]]
 NB == Len(Bases)
 
 \* TLC evaluates these once
@@ -218,10 +269,12 @@ Descs(b) ==
   LET n == Len(BaseToks[b])
       ps == BasePaths[b] IN
   {Desc(b, "base", i, 0) : i \in 1 .. 1 + Len(UniformSeq)}
-  \cup {Desc(b, "pre" \o ToString(l), i, j) : l \in 1 .. PreLayouts, i \in 1 .. Len(ps), j \in 0 .. 40}
-  \cup {Desc(b, "ws", g, w) : g \in 0 .. n, w \in 1 .. WsCount}
-  \cup {Desc(b, "unws", g, 0) : g \in {g \in 0 .. n : ~(g >= 1 /\ BaseToks[b][g].m)}}
   \cup {Desc(b, "rand", k, 0) : k \in 1 .. NRand}
+  \cup (IF Bases[b].sweep
+        THEN {Desc(b, "pre" \o ToString(l), i, j) : l \in 1 .. PreLayouts, i \in 1 .. Len(ps), j \in 0 .. 40}
+             \cup {Desc(b, "ws", g, w) : g \in 0 .. n, w \in 1 .. WsCount}
+             \cup {Desc(b, "unws", g, 0) : g \in {g \in 0 .. n : ~(g >= 1 /\ BaseToks[b][g].m)}}
+        ELSE {})
 
 \* the decoration of a descriptor (j = 0 of kind pre: the position emptied)
 DecoOf(d) ==
@@ -305,7 +358,7 @@ Inv_Norm ==
 
 \* Render is injective on Ast modulo layout: over all decorations of one base, two schemas have the
 \* same AST iff their normal forms have the same tokens (checked once per base, at its second state, so that the workers share the bases)
-DecoDescs(b) == {d \in Descs(b) : ValidDesc(d) /\ d.kind = "pre1"} \cup {Desc(b, "base", 1, 0)}
+DecoDescs(b) == {d \in Descs(b) : ValidDesc(d) /\ d.kind = (IF Bases[b].sweep THEN "pre1" ELSE "rand")} \cup {Desc(b, "base", 1, 0)}
 Inv_Inj ==
   (st.kind = "base" /\ st.i = 2) =>
      LET B == Bases[st.b].B
